@@ -193,7 +193,14 @@ func (r *caseRun) runRestart(w *lifeRow, lr *lifeReport) (map[string]any, string
 		if !lc.peer.waitRequests(1, 60*time.Second) {
 			return nil, "the blocking RequestTxIds did not reach the peer within 60s"
 		}
-		handled.Store(0) // the Init that opened generation 1 is not part of the case
+		// the Init that opened generation 1 is not part of the case (its callback runs after the state transition
+		// that lets the request out: wait for it)
+		for t0 := time.Now(); handled.Load() < 1; time.Sleep(time.Millisecond) {
+			if time.Since(t0) > 60*time.Second {
+				return nil, "the Init callback of generation 1 did not run"
+			}
+		}
+		handled.Store(0)
 	}
 	when := int((r.seed >> 40) % 3) // chain-sync / block-fetch: call 2 before the script, after its first step, after it
 	if !tx && when == 0 {
